@@ -224,7 +224,7 @@ struct visitor<bind_functor<T_loc, T_functor, T_bound...>>
     const bind_functor<T_loc, T_functor, T_bound...>& target)
   {
     sigc::visit_each(action, target.functor_);
-    sigc::visit_each(action, std::get<0>(target.bound_));
+    sigc::internal::tuple_for_each<internal::TupleVisitorVisitEach>(target.bound_, action);
   }
 };
 
